@@ -297,7 +297,7 @@ theorem refreshed_validTo (s1 : Tracker σ) (u : σ) (vt : Int) : (refreshed s1 
   unfold refreshed; cases get? s1.devices u <;> rfl
 
 theorem seeDevice_none (ipv : σ → Option Nat) (s : Tracker σ) (m : Msg σ)
-    (h : m.udn = none ∨ m.loc = none) : seeDevice ipv s m = (purge s m.ts, none) := by
+    (h : m.udn = none ∨ m.loc = none) : seeDevice ipv s m = (s, none) := by
   unfold seeDevice
   rcases h with h | h
   · simp [h]
@@ -331,10 +331,10 @@ theorem inv_seeDevice (ipv : σ → Option Nat) {s : Tracker σ} (hi : Inv s) (m
     Inv (seeDevice ipv s m).1 := by
   have hp := inv_purge hi m.ts
   cases hu : m.udn with
-  | none => rw [seeDevice_none ipv s m (Or.inl hu)]; exact hp
+  | none => rw [seeDevice_none ipv s m (Or.inl hu)]; exact hi
   | some u =>
     cases hl : m.loc with
-    | none => rw [seeDevice_none ipv s m (Or.inr hl)]; exact hp
+    | none => rw [seeDevice_none ipv s m (Or.inr hl)]; exact hi
     | some loc =>
       rw [seeDevice_some ipv s m u loc hu hl]
       have hv : (sighted (refreshed (purge s m.ts) u (m.ts + m.maxAge)) loc (m.ts + m.maxAge) m.ts).validTo
